@@ -26,6 +26,8 @@ func runC01(r *core.Run) {
 	r.Rule("R01.4", "sendPackets: strict partial-packet test against the live body size; early return only for onlyFull; discard on exit", 4, false)
 	r.Rule("R01.5", "SendRemainingPackets flushes with onlyFull == false", 1, false)
 	r.Rule("R01.6", "a flush sends at least one packet (the one that carries EOM)", 1, false)
+	r.Rule("R01.7", "a packet reaches the transport in one Write call (header and body cannot be torn apart by another channel)", 1, false)
+	r.Rule("R01.8", "the tx side is reset on every exit of a flush (nothing is left behind for the next message)", 2, false)
 
 	fConn := p.Field("tds", "Conn", "conn")
 	roles := map[string]string{
@@ -104,6 +106,8 @@ func runC01(r *core.Run) {
 	c01SendPacket(r)
 	c01Coupling(r)
 	c01SendPackets(r)
+	c01SingleWrite(r)
+	c03Reset(r, "R01.8")
 }
 
 func isBodySizeCall(p *core.Prog, v ssa.Value) bool {
@@ -485,4 +489,73 @@ func c01SendPackets(r *core.Run) {
 		}
 	})
 	r.Check(!zero, "R01.6", "sendPackets(false): success only after at least one sendPacket", fn.Pos(), "every non-onlyFull success path sends a packet", "the flush can succeed without sending any packet (the loop over the tx queue has a zero-iteration path): when the message length is an exact multiple of the body size, QueuePackage has already sent the last full packet without EOM and the queue is empty, so no packet of the message ever carries the end-of-message flag")
+}
+
+// c01SingleWrite: Packet.WriteTo hands the whole serialised packet to the
+// transport in exactly one Write call on every path. All channels of a
+// connection share the transport without a send lock; one Write per packet
+// is what keeps packets of different channels from interleaving.
+func c01SingleWrite(r *core.Run) {
+	p := r.Prog
+	fn := p.Func("tds", "Packet", "WriteTo")
+	bytesFn := p.Func("tds", "Packet", "Bytes")
+	if len(fn.Params) != 2 {
+		r.Unknown("R01.7", "Packet.WriteTo: one Write per packet", fn.Pos(), "unexpected signature")
+		return
+	}
+	w := fn.Params[1]
+	isTransportWrite := func(in ssa.Instruction) (ssa.Value, bool) {
+		c, ok := in.(*ssa.Call)
+		if !ok {
+			return nil, false
+		}
+		if c.Call.IsInvoke() && c.Call.Value == ssa.Value(w) {
+			if len(c.Call.Args) == 1 {
+				return c.Call.Args[0], true
+			}
+			return nil, true
+		}
+		// the writer handed on to another function also writes
+		for _, a := range c.Call.Args {
+			if a == ssa.Value(w) {
+				return nil, true
+			}
+		}
+		return nil, false
+	}
+	ok, why := true, ""
+	nsucc := 0
+	core.EnumPaths(fn.Blocks[0], func(b *ssa.BasicBlock) bool { return false }, nil, 500, func(pa core.Path, ended bool) {
+		last := pa.Blocks[len(pa.Blocks)-1]
+		if _, isRet := last.Instrs[len(last.Instrs)-1].(*ssa.Return); !isRet {
+			return
+		}
+		n := 0
+		whole := false
+		for _, b := range pa.Blocks {
+			for _, in := range b.Instrs {
+				if arg, isW := isTransportWrite(in); isW {
+					n++
+					if ex, isEx := arg.(*ssa.Extract); isEx {
+						if c, isC := ex.Tuple.(*ssa.Call); isC && core.StaticCallee(c) == bytesFn {
+							whole = true
+						}
+					}
+				}
+			}
+		}
+		if n == 0 {
+			return // error path before anything was written
+		}
+		nsucc++
+		if n > 1 {
+			ok, why = false, "a packet is written to the transport in more than one Write call: another channel's packet can land between header and body, and the byte stream no longer parses as consecutive packets"
+		} else if !whole {
+			ok, why = false, "the single Write does not carry the serialisation returned by packet.Bytes()"
+		}
+	})
+	if nsucc == 0 {
+		ok, why = false, "no path writes the packet"
+	}
+	r.Check(ok, "R01.7", "Packet.WriteTo: one Write per packet", fn.Pos(), "writer.Write(packet.Bytes()) exactly once", why)
 }
